@@ -52,6 +52,10 @@ def chosen_format(unit, fn, text):
             if A.string_literal(inner) is not None:
                 return A.string_literal(inner)
             return ev.ev(inner)
+        if k in ("MemberExpr", "ArraySubscriptExpr"):
+            r_ = FD.const_aggregate(unit, n, ev)
+            if r_ is not NotImplemented:
+                return r_
         if k == "BinaryOperator" and n.get("opcode") == "=":
             l = A.strip_casts(A.kids(n)[0])
             if l.get("kind") == "UnaryOperator" and l.get("opcode") == "*":
